@@ -315,6 +315,20 @@ func (tr *TemplateRecord) unmarshalOpts(r *reader.Reader) error {
 	return nil
 }
 
+// recordLength returns the number of bytes a data record of this template occupies
+func (tr *TemplateRecord) recordLength() int {
+	var n int
+
+	for _, f := range tr.ScopeFieldSpecifiers {
+		n += int(f.Length)
+	}
+	for _, f := range tr.FieldSpecifiers {
+		n += int(f.Length)
+	}
+
+	return n
+}
+
 func (d *Decoder) decodeData(tr TemplateRecord) ([]DecodedField, error) {
 	var (
 		fields []DecodedField
@@ -435,8 +449,19 @@ func (d *Decoder) decodeSet(mem MemCache, msg *Message) error {
 		}
 	}
 
-	// the next set should be greater than 4 bytes otherwise that's padding
-	for err == nil && (int(setHeader.Length)-(d.reader.ReadCount()-startCount) > 4) && d.reader.Len() > 4 {
+	// whatever is left in a flowset and is shorter than one record is padding: for a data flowset
+	// that is the template's record length, for a template flowset it stays at up to 4 bytes
+	minLen := 5
+	if setHeader.FlowSetID > 255 && err == nil {
+		if minLen = tr.recordLength(); minLen == 0 {
+			err = nonfatalError(fmt.Errorf("%s netflow template id# %d describes zero-length records",
+				d.raddr.String(),
+				setHeader.FlowSetID,
+			))
+		}
+	}
+
+	for err == nil && (int(setHeader.Length)-(d.reader.ReadCount()-startCount) >= minLen) && d.reader.Len() >= minLen {
 		if setId := setHeader.FlowSetID; setId == 0 || setId == 1 {
 			// Template record or template option record
 			tr := TemplateRecord{}
